@@ -25,6 +25,8 @@ def rand_region(rng, rid=None, big=False):
             d["y1"], d["y2"] = d["y2"], d["y1"]
     else:
         d = {"type": "CircularRegion", "cx": cx, "cy": cy, "r": r1(rng.uniform(0.5, hi))}
+        if rng.random() < 0.04:
+            d["r"] = -d["r"]        # nonsense, but a client can send it: such a circle excludes nothing
     if rid is not None:
         d["id"] = rid
     return d
@@ -263,12 +265,17 @@ class ApiGen(object):
             self.emit(op="settings", set=st, invalid=True)
             return
         st = {}
+
+        def flag():
+            """A stored flag value as the settings API or a hand-edited config.yaml may hold it."""
+            val = r.random() < 0.5
+            if r.random() < 0.25:
+                return val, r.choice(["true", "yes", "1", "on", 1] if val else ["false", "no", "0", "off", 0])
+            return val, val
         if r.random() < 0.6:
-            self.may_shrink = r.random() < 0.5
-            st["mayShrinkRegionsWhilePrinting"] = self.may_shrink
+            self.may_shrink, st["mayShrinkRegionsWhilePrinting"] = flag()
         if r.random() < 0.5:
-            self.clear_after = r.random() < 0.5
-            st["clearRegionsAfterPrintFinishes"] = self.clear_after
+            self.clear_after, st["clearRegionsAfterPrintFinishes"] = flag()
         self.emit(op="settings", set=st)
 
 
